@@ -250,6 +250,37 @@ def array_alias_cases(rnd, reps=2):
     return out
 
 
+def convert_panic_shapes():
+    """Merges with a StreamReaderWithConvert source whose convert function panics on its k-th call (n of the conv node); the convert sits
+    directly under the merge or below a second (key-mapping like) convert.  -> list of (name, nodes)"""
+    out = []
+    for k in (1, 2):
+        out.append(("panic%d+pipe" % k, [_node("pipe"), _node("pipe"), _node("conv", src=[1], n=k), _node("merge", src=[2, 3])]))
+        out.append(("key(panic%d)+array" % k, [_node("pipe"), _node("array"), _node("conv", src=[1], n=k), _node("conv", src=[3]),
+                                                _node("merge", src=[2, 4])]))
+    out.append(("skip-panic2+conv", [_node("pipe"), _node("pipe"), _node("conv", src=[1], n=2, skip=2), _node("conv", src=[2]),
+                                     _node("merge", src=[3, 4])]))
+    return out
+
+
+def convert_panic_cases(rnd, reps=4):
+    """Concurrent drivers on the convert-panic trees: the panicking source has more items than its pipe holds; the reader reads to EOF
+    (pclose 0: the merged stream must end although a source panicked) or closes early; the writer must be released either way."""
+    out = []
+    for name, nodes in convert_panic_shapes():
+        for r in range(reps):
+            tree = json.loads(json.dumps(nodes))
+            for i, n in enumerate(tree):
+                if n["k"] == "pipe":
+                    n["cap"] = rnd.choice([0, 0, 1])
+                    n["items"] = [(i + 1) * 10 + j for j in range(1, (4 if i == 0 else rnd.choice([1, 2])) + 1)]
+                elif n["k"] == "array":
+                    n["items"] = [(i + 1) * 10 + 1]
+            out.append({"id": "cp-%s-%d" % (name, r), "mode": "conc", "shape": "convpanic", "tree": tree, "ops": [],
+                        "seed": rnd.randrange(1 << 30), "pclose": 0 if r % 2 == 0 else 1})
+    return out
+
+
 def burst_cases(rounds, prefix="b"):
     """Barrier driver: Pipe(1) -> Copy(n), n in 2..4; per round every copy is closed by its own goroutine, all released together; then the
     writer sends once.  One `burst` line per round, judged by StreamsObs (ObsBurst)."""
@@ -401,7 +432,7 @@ def decorate_run(shapes, rnd, *, prefix):
         nodes = []
         for name, kind in zip(sh["nodes"], sh["kinds"]):
             nodes.append({"name": name, "kind": kind, "cap": rnd.choice([0, 0, 1]), "k": rnd.choice([1, 2, 3]),
-                          "okey": sh["mode"] != "wf" and rnd.random() < 0.25, "err": 0})
+                          "okey": sh["mode"] != "wf" and rnd.random() < 0.25, "err": 0, "pan": 0})
         sc = {"id": "%s%d" % (prefix, i), "mode": sh["mode"], "nodes": nodes, "edges": sh["edges"],
               "branch": [branch_deco(b, rnd) for b in sh["branch"]],
               "handler": rnd.choice(["none", "none", "close", "read1", "drain"]),
@@ -432,6 +463,23 @@ def decorate_run(shapes, rnd, *, prefix):
             src["cap"] = rnd.choice([0, 1])
             sc["read"] = rnd.choice([0, 1, 2, 2, -1])
             sc["handler"] = rnd.choice(["none", "none", "close", "read1"])
+        # convert panic inside a fan-in bridge: a streaming node whose only successor is END, END being a fan-in (>= 2 edges), returns a
+        # convert-wrapped stream whose convert function panics on its pan-th chunk; more chunks than the pipe holds; the caller reads until
+        # the error chunk (or EOF) and closes; no handler (a handler's copy would put a copy between the convert and the merge)
+        outs = {}
+        for a, b in sh["edges"]:
+            outs.setdefault(a, []).append(b)
+        nend = sum(1 for a, b in sh["edges"] if b == "end")
+        brfrom = {b["from"] for b in sh["branch"]}
+        cand = [n for n in nodes if n["kind"] == "S" and outs.get(n["name"]) == ["end"] and n["name"] not in brfrom]
+        if nend >= 2 and cand and not sh["branch"] and rnd.random() < 0.08:
+            p = rnd.choice(cand)
+            p["pan"] = rnd.choice([1, 2])
+            p["k"] = rnd.choice([4, 6])
+            p["cap"] = rnd.choice([0, 0, 1])
+            sc["handler"] = "none"
+            sc["read"] = -1
+            sc["experr"] = True
         if is_chain(sh) and rnd.random() < 0.8:
             prods = [n for n in nodes if n["kind"] == "S"]
             if prods:
